@@ -14,6 +14,9 @@
 //  * anything involving a complex product or quotient: textbook formula in long double, per component
 //    |err| <= 8 eps (|a.re b.re| + |a.im b.im|)   (product; imaginary part analogously),
 //    |err| <= 8 eps |a| / |b|                       (quotient)
+//  * unary minus / plus: bit for bit (NaN == NaN) against the component-wise sign flip and the library's scalar operator,
+//    also on {+0,-0,1,-1,inf,-inf,NaN}^2; every array form is additionally compared bit for bit with the library's scalar
+//    operator on the same operand types ("sibling" check) where the unchanged tree has that agreement.
 //  * division by an exactly zero divisor is outside the domain (executed, result not judged).
 //  * combinations that do not compile (compound forms that would change the element type; arr_real with
 //    std::complex<double> for + - /) are not executed; they are listed in the evidence notes, not reported as violations.
@@ -419,29 +422,195 @@ static void grid_mismatch(Ctx& ctx, bool compound) {
         }
 }
 
+// ------------------------------------------------------------------------------------------------ bit-level checks
+// Extended alphabet for the operations whose scalar result is defined bit for bit (sign of zero, infinities, NaN):
+// every combination of {+0, -0, 1, -1, inf, -inf, NaN} in the real and the imaginary part.
+static const double E7[7] = {0.0, -0.0, 1.0, -1.0, HUGE_VAL, -HUGE_VAL, NAN};
+template<class X>
+static std::vector<X> ext_vals();
+template<>
+std::vector<real_t> ext_vals<real_t>() {
+    return std::vector<real_t>(E7, E7 + 7);
+}
+template<>
+std::vector<int> ext_vals<int>() {
+    return {0, 1, -1, 2};
+}
+template<>
+std::vector<cmplx_t> ext_vals<cmplx_t>() {
+    std::vector<cmplx_t> v;
+    for (double re : E7)
+        for (double im : E7) v.push_back(cmplx_t(re, im));
+    return v;
+}
+// equal bit patterns; two NaNs of any sign/payload count as equal
+static bool bits_or_nan(double a, double b) { return (std::isnan(a) && std::isnan(b)) || biteq(a, b); }
+static bool bits_or_nan(const Sc& a, const Sc& b) { return bits_or_nan(a.re, b.re) && bits_or_nan(a.im, b.im); }
+static std::string sstr(const Sc& s) { return fmt("(%g,%g)", s.re, s.im); }
+
+// unary minus of a complex array compiles iff cmplx_t is not (mis)constructible from a std::vector: the unconstrained
+// constructor template of the originally pinned tree made `base_array<cmplx_t> r{_vec}` pick the initializer_list
+// constructor (hard error inside operator-).  On such a tree the form is left to the compile probe "-arr_cmplx".
+template<class A>
+constexpr bool neg_compiles() {
+    using E = typename Tr<A>::elem;
+    return !(Tr<A>::cplx && std::is_constructible_v<E, std::vector<E>>);
+}
+
+// -a and +a, element by element and BIT FOR BIT against component-wise negation (IEEE sign flip) and against the
+// library's scalar operator on the element; values: the grid alphabet at every length and the extended alphabet
 template<class A>
 static void unary_checks(Ctx& ctx, bool T) {
-    long salt = 0;
-    for (int n : lengths(T)) {
-        const long s0 = salt;
-        salt += n;
-        if (!ctx.take("unary", P().kv("type", Tr<A>::name()).kv("n", n))) continue;
-        A a = make_arr<A>(n, s0, 1, Tr<A>::nv());
-        const A a0 = a;
-        A m = -a;
-        const A& p = +a;
-        static_assert(std::is_same_v<decltype(-a), A>);
-        bool ok = m.size() == n && p.size() == n;
-        for (int i = 0; ok && i < n; ++i) {
-            const Sc x = view(a0[i]);
-            // -x: every component negated (IEEE negation is exact; -0 <-> +0 compare equal under ==)
-            if (!(gre_of(m[i]) == -x.re && gim_of(m[i]) == -x.im)) ok = false;
-            if (!(gre_of(p[i]) == x.re && gim_of(p[i]) == x.im)) ok = false;
+    using E = typename Tr<A>::elem;
+    if constexpr (!neg_compiles<A>()) {
+        ctx.note(std::string("unary: -") + Tr<A>::name() + " not instantiated (cmplx_t constructible from std::vector), see grid.probe");
+        return;
+    } else {
+        auto run = [&](const A& a0) {
+            const int n = a0.size();
+            A a = a0;
+            A m = -a;
+            const A& p = +a;
+            static_assert(std::is_same_v<decltype(-a), A>);
+            if (m.size() != n || p.size() != n) {
+                ctx.fail("unary", fmt("result length %d / %d", m.size(), p.size()), fmt("%d", n));
+                return;
+            }
+            for (int i = 0; i < n; ++i) {
+                const Sc x = view(a0[i]);
+                const Sc neg = {-x.re, -x.im, x.cplx};   // sign flip of every component
+                const E sneg = -a0[i];                    // the scalar operator of the library
+                const Sc want = {neg.re, Tr<A>::cplx ? neg.im : 0.0, x.cplx};
+                if (!bits_or_nan(view(m[i]), want) || !bits_or_nan(view(sneg), want)) {
+                    ctx.fail("unary", fmt("-x[%d]: x = %s, array form gives %s, scalar form gives %s", i, sstr(x).c_str(), sstr(view(m[i])).c_str(), sstr(view(sneg)).c_str()),
+                             "every component negated bit for bit: " + sstr(want), P().kv("i", i));
+                    return;
+                }
+                if (!bits_or_nan(view(p[i]), view(a0[i]))) {
+                    ctx.fail("unary", fmt("+x[%d] differs from x = %s", i, sstr(x).c_str()), "unchanged", P().kv("i", i));
+                    return;
+                }
+            }
+            if (!bits_equal(a, a0)) ctx.fail("unary", "operand modified", "unchanged");
+        };
+        long salt = 0;
+        for (int n : lengths(T)) {
+            const long s0 = salt;
+            salt += n;
+            if (!ctx.take("unary", P().kv("type", Tr<A>::name()).kv("n", n))) continue;
+            run(make_arr<A>(n, s0, 1, Tr<A>::nv()));
+            if (n >= 2) ctx.nontrivial();
         }
-        if (!ok) ctx.fail("unary", "unary minus / plus wrong for " + std::string(Tr<A>::name()), "every element negated / unchanged");
-        if (!bits_equal(a, a0)) ctx.fail("unary", "operand modified", "unchanged");
-        if (n >= 2) ctx.nontrivial();
+        if (ctx.take("unary", P().kv("type", Tr<A>::name()).kv("n", "ext"))) {
+            run(A(ext_vals<E>()));
+            ctx.nontrivial();
+        }
     }
+}
+
+// Agreement of the array forms with the library's own scalar operators on the same operand types, bit for bit, over the
+// extended alphabet (sign of zero, infinities, NaN).  Asserted for every form for which the unchanged tree has it (surveyed
+// over all 106 forms without std::complex<double>: 92 agree).  The 14 forms that do not agree all promote a REAL operand
+// to (x, +0) and then use the complex-complex operator where the scalar operator keeps the operand real, so a zero
+// component differs in sign (and inf * 0 appears):  real-valued {+,-,*} complex-valued (arr_real with arr_cmplx / cmplx_t,
+// real_t / int on the left of arr_cmplx) and cmplx_t {+,*} arr_real.  Both readings are "the usual field formulas with the
+// real operand promoted", so these are only recorded in the notes.
+template<class L, class R, class Op>
+constexpr bool sibling_asserted() {
+    constexpr bool l_real = !Tr<L>::cplx, r_cplx = Tr<R>::cplx;
+    if (l_real && r_cplx && Op::c != '/') return false;
+    if (std::is_same_v<L, cmplx_t> && std::is_same_v<R, arr_real> && (Op::c == '+' || Op::c == '*')) return false;
+    return true;
+}
+template<class X>
+struct ElemOf
+{
+    using type = X;
+};
+template<class E>
+struct ElemOf<base_array<E>>
+{
+    using type = E;
+};
+template<class L, class R, class Op>
+static void grid_sibling(Ctx& ctx, bool compound) {
+    using EL = typename ElemOf<L>::type;
+    using ER = typename ElemOf<R>::type;
+    const std::string id = std::string(Tr<L>::name()) + " " + Op::c + (compound ? "= " : " ") + Tr<R>::name();
+    if (!ctx.take("sibling", P().kv("expr", id))) return;
+    const std::vector<EL> lv = ext_vals<EL>();
+    const std::vector<ER> rv = ext_vals<ER>();
+    long diffs = 0, judged = 0;
+    std::string first;
+    auto cmp = [&](const Sc& got, const Sc& want, const Sc& x, const Sc& y) {
+        ++judged;
+        if (bits_or_nan(got, want)) return;
+        if (!diffs) first = sstr(x) + " " + Op::c + " " + sstr(y) + ": array form " + sstr(got) + ", scalar form " + sstr(want);
+        ++diffs;
+    };
+    auto elemwise = [&](const auto& res, auto la, auto ra, int n) {
+        if (res.size() != n) {
+            ctx.fail("sibling", fmt("result length %d", res.size()), fmt("%d", n));
+            return;
+        }
+        for (int i = 0; i < n; ++i) {
+            const EL x = la(i);
+            const ER y = ra(i);
+            if (compound) {
+                if constexpr (compound_supported<L, R>() && Tr<L>::arr) {
+                    EL t = x;
+                    Op::cp(t, y);
+                    cmp(view(res[i]), view(t), view(x), view(y));
+                }
+            } else {
+                cmp(view(res[i]), view(Op::ap(x, y)), view(x), view(y));
+            }
+        }
+    };
+    if constexpr (Tr<L>::arr && Tr<R>::arr) {
+        const int na = (int)lv.size(), nb = (int)rv.size(), n = na * nb;
+        L a(n);
+        R b(n);
+        for (int i = 0; i < n; ++i) a[i] = lv[(size_t)(i % na)], b[i] = rv[(size_t)(i / na)];
+        const L a0 = a;
+        if (compound) {
+            if constexpr (compound_supported<L, R>()) {
+                Op::cp(a, b);
+                elemwise(a, [&](int i) { return a0[i]; }, [&](int i) { return b[i]; }, n);
+            }
+        } else {
+            elemwise(Op::ap(a, b), [&](int i) { return a0[i]; }, [&](int i) { return b[i]; }, n);
+        }
+    } else if constexpr (Tr<L>::arr) {
+        for (const ER& sc : rv) {
+            L a(lv);
+            const L a0 = a;
+            if (compound) {
+                if constexpr (compound_supported<L, R>()) {
+                    Op::cp(a, sc);
+                    elemwise(a, [&](int i) { return a0[i]; }, [&](int) { return sc; }, a0.size());
+                }
+            } else {
+                elemwise(Op::ap(a, sc), [&](int i) { return a0[i]; }, [&](int) { return sc; }, a0.size());
+            }
+        }
+    } else {
+        for (const EL& sc : lv) {
+            const R a(rv);
+            elemwise(Op::ap(sc, a), [&](int) { return sc; }, [&](int i) { return a[i]; }, a.size());
+        }
+    }
+    ctx.evaluations += (uint64_t)judged;
+    ctx.checks[ctx.cur_check].evals += (uint64_t)judged;
+    if (diffs == 0) {
+        ctx.note("sibling.bit-identical: " + id);
+    } else if (sibling_asserted<L, R, Op>()) {
+        ctx.fail("sibling", fmt("%ld of %ld elements differ in their bits from the scalar operator; first: %s", diffs, judged, first.c_str()),
+                 "array form bit-identical to the scalar operator on the same operands");
+    } else {
+        ctx.note("sibling.differs (not asserted): " + id + " e.g. " + first);
+    }
+    ctx.nontrivial();
 }
 
 // ------------------------------------------------------------------------------------------------ value semantics
@@ -796,13 +965,14 @@ static Val lib_apply(char op, const Val& a, const Val& b) {
         },
         a, b);
 }
-// unary minus of a complex array does not compile on the pinned tree (see probes()); programs that would need it are
-// skipped and counted - the form itself is checked by the compile probe "-arr_cmplx"
-static bool can_neg(const Val& a) { return a.index() != 3; }
+// unary minus of a complex array: only where it compiles (neg_compiles); otherwise programs that need it are skipped
+// and counted - the form itself is then observed by the compile probe "-arr_cmplx"
+static bool can_neg(const Val& a) { return a.index() != 3 || neg_compiles<arr_cmplx>(); }
 static Val lib_neg(const Val& a) {
     return std::visit(
         [&](const auto& x) -> Val {
-            if constexpr (std::is_same_v<std::decay_t<decltype(x)>, arr_cmplx>) {
+            using X = std::decay_t<decltype(x)>;
+            if constexpr (std::is_same_v<X, arr_cmplx> && !neg_compiles<arr_cmplx>()) {
                 fprintf(stderr, "lib_neg: complex array\n");
                 exit(4);
             } else {
@@ -810,6 +980,51 @@ static Val lib_neg(const Val& a) {
             }
         },
         a);
+}
+// bit-level side condition of every unary-minus node of a program: -v has exactly the sign-flipped components of v
+static bool neg_bits_ok(const Val& v, const Val& m, std::string& why) {
+    if (v.index() != m.index()) {
+        why = "type changed";
+        return false;
+    }
+    auto one = [&](const Sc& x, const Sc& g, int i) {
+        const Sc want = {-x.re, x.cplx ? -x.im : 0.0, x.cplx};
+        if (bits_or_nan(g, want)) return true;
+        why = fmt("element %d: -%s gave %s, expected %s", i, sstr(x).c_str(), sstr(g).c_str(), sstr(want).c_str());
+        return false;
+    };
+    switch (v.index()) {
+        case 0: return one(view(std::get<0>(v)), view(std::get<0>(m)), 0);
+        case 1: return one(view(std::get<1>(v)), view(std::get<1>(m)), 0);
+        case 2: {
+            const arr_real &a = std::get<2>(v), &b = std::get<2>(m);
+            if (a.size() != b.size()) {
+                why = "length changed";
+                return false;
+            }
+            for (int i = 0; i < a.size(); ++i)
+                if (!one(view(a[i]), view(b[i]), i)) return false;
+            return true;
+        }
+        default: {
+            const arr_cmplx &a = std::get<3>(v), &b = std::get<3>(m);
+            if (a.size() != b.size()) {
+                why = "length changed";
+                return false;
+            }
+            for (int i = 0; i < a.size(); ++i)
+                if (!one(view(a[i]), view(b[i]), i)) return false;
+            return true;
+        }
+    }
+}
+
+// unary minus of a program value through the real operator, with the bit-level side condition
+static Val checked_neg(const Val& v, const std::string& prog) {
+    Val m = lib_neg(v);
+    std::string why;
+    if (!neg_bits_ok(v, m, why)) g_ctx->fail("expression", "unary minus: " + why, "every component negated bit for bit", P().kv("prog", "-(" + prog + ")"));
+    return m;
 }
 
 static RefVal ref_apply(char op, const RefVal& a, const RefVal& b) {
@@ -918,7 +1133,7 @@ static void chain_dfs(Ctx& ctx, const Val& lv, const RefVal& rv, const std::stri
                 ctx.note("programs: unary minus of a complex array skipped (form does not compile)");
                 continue;
             }
-            nl = lib_neg(lv);
+            nl = checked_neg(lv, prog);
             nr = ref_neg(rv);
             np = "-(" + prog + ")";
         } else {
@@ -954,7 +1169,7 @@ static void eval_tree(const Tree& t, int& pos, Val& lv, RefVal& rv, std::string&
         make_leaf(t.l, pos, a, ra);
         s = std::string("-") + leaf_name(t.l) + std::to_string(pos);
         ++pos;
-        lv = lib_neg(a);
+        lv = checked_neg(a, s);
         rv = ref_neg(ra);
     } else {
         Val a, b;
@@ -976,7 +1191,7 @@ static void programs(Ctx& ctx, bool T) {
     std::vector<Tree> t1;
     for (int l = 0; l < 4; ++l) t1.push_back({0, l, 0, 0});
     for (int l = 0; l < 4; ++l)
-        if (l != 1) t1.push_back({1, l, 0, 0});   // -C: see can_neg()
+        if (l != 1 || neg_compiles<arr_cmplx>()) t1.push_back({1, l, 0, 0});   // -C: see can_neg()
     for (int op = 0; op < 4; ++op)
         for (int l = 0; l < 4; ++l)
             for (int r = 0; r < 4; ++r) t1.push_back({2, l, r, op});
@@ -995,7 +1210,7 @@ static void programs(Ctx& ctx, bool T) {
                         ctx.note("programs: unary minus of a complex array skipped (form does not compile)");
                         continue;
                     }
-                    lr = lib_neg(la);
+                    lr = checked_neg(la, sa);
                     rr = ref_neg(ra);
                     s = "-" + sa;
                 } else {
@@ -1030,7 +1245,7 @@ static void programs(Ctx& ctx, bool T) {
                             ok = false;
                             break;
                         }
-                        nl = lib_neg(lv);
+                        nl = checked_neg(lv, prog);
                         nr = ref_neg(rv);
                         prog = "-(" + prog + ")";
                     } else {
@@ -1115,8 +1330,9 @@ int main() {
             if (m.size() != n || p.size() != n) { ++bad; continue; }
             for (int i = 0; i < n; ++i) {
                 ++judged;
-                if (!(m[i].re == -a0[i].re && m[i].im == -a0[i].im)) ++bad;
-                if (!(p[i].re == a0[i].re && p[i].im == a0[i].im)) ++bad;
+                const double wr = -a0[i].re, wi = -a0[i].im;   // sign flip, compared bit for bit
+                if (std::memcmp(&m[i].re, &wr, 8) != 0 || std::memcmp(&m[i].im, &wi, 8) != 0) ++bad;
+                if (std::memcmp(&p[i], &a0[i], sizeof(cmplx_t)) != 0) ++bad;
             }
             if (n && std::memcmp(a.data(), a0.data(), n * sizeof(cmplx_t)) != 0) ++bad;
         }
@@ -1339,6 +1555,12 @@ int main(int argc, char** argv) {
                         ctx.note(std::string("grid.rejected-at-compile-time (would change the element type): ") + Tr<L>::name() + " " + Op::c + "= " + Tr<R>::name());
                     }
                 }
+                if constexpr ((Tr<L>::arr || Tr<R>::arr) && !std::is_same_v<L, stdc> && !std::is_same_v<R, stdc>) {
+                    if (ctx.wants("sibling")) {
+                        grid_sibling<L, R, Op>(ctx, false);
+                        if constexpr (compound_supported<L, R>()) grid_sibling<L, R, Op>(ctx, true);
+                    }
+                }
                 if constexpr (Tr<L>::arr && Tr<R>::arr) {
                     if (ctx.wants("mismatch")) {
                         grid_mismatch<L, R, Op>(ctx, false);
@@ -1348,7 +1570,10 @@ int main(int argc, char** argv) {
             });
         });
     });
-    if (ctx.wants("unary")) unary_checks<arr_real>(ctx, T);   // arr_cmplx: through a run-time compile probe, see probes()
+    if (ctx.wants("unary")) {
+        unary_checks<arr_real>(ctx, T);
+        unary_checks<arr_cmplx>(ctx, T);
+    }
     probes(ctx);
     value_semantics<real_t>(ctx);
     value_semantics<cmplx_t>(ctx);
